@@ -766,6 +766,15 @@ type raEv struct {
 
 func raSK(s string) *string { return &s }
 
+// raTS writes a timestamp; a negative TS stands for the unsigned value beyond 2^63 with the same bits
+// (origin_server_ts is an unsigned 64-bit number on the wire; room versions before 6 accept such values)
+func raTS(ts int64) jv {
+	if ts < 0 {
+		return jv{K: '#', S: strconv.FormatUint(uint64(ts), 10)}
+	}
+	return jnum(ts)
+}
+
 func raJSON(version string, e raEv) jv {
 	tr := vtraits[version]
 	ev := jv{K: 'o'}
@@ -780,7 +789,7 @@ func raJSON(version string, e raEv) jv {
 	if ct.K != 'o' {
 		ct = jv{K: 'o'}
 	}
-	ev = ev.with("content", ct).with("depth", jnum(e.Depth)).with("origin_server_ts", jnum(e.TS))
+	ev = ev.with("content", ct).with("depth", jnum(e.Depth)).with("origin_server_ts", raTS(e.TS))
 	ids := func(l []string) jv {
 		a := jv{K: 'a', A: []jv{}}
 		for _, id := range l {
